@@ -2,6 +2,7 @@ use crate::runner::Property;
 
 pub mod c01;
 pub mod c07;
+pub mod c08;
 pub mod c13;
 pub mod c14;
 pub mod c15;
@@ -16,6 +17,7 @@ pub fn by_id(id: &str) -> Option<Box<dyn Property>> {
     Some(match id {
         "C01" => Box::new(c01::C01),
         "C07" => Box::new(c07::C07),
+        "C08" => Box::new(c08::C08),
         "C13" => Box::new(c13::C13),
         "C14" => Box::new(c14::C14),
         "C15" => Box::new(c15::C15),
